@@ -156,7 +156,8 @@ def run(ctx, rep):
             r.finding(inst, loc_str(b.f, c.loc), "enumerate_files returns an error that is not the failure of a file-system call: an argument that merely contributes no file "
                       "(an empty directory) fails the whole run, although checking the list of the files of all arguments succeeds")
     # create_project: the loop over the enumerated files pushes each one
-    p = cb[0]
+    from rules.c13 import with_helpers
+    p = with_helpers(ctx, cb[0])
     from vlib import units
     pushes = [(bd, c) for bd, c, site in units.calls_in_unit(ctx, p) if c.callee == "ironplcc::project::FileBackedProject::push"]
     pw = "%s:%d" % (p.f["file"], p.f["line"])
